@@ -25,11 +25,13 @@ type Case struct {
 	FatalKind int   `json:"fatalkind,omitempty"` // 1 = no election id, 2 = no entry
 	// Every > 1: L1 bulk histories read the whole RIB back only every n-th step
 	Every int `json:"every,omitempty"`
+	// NoRefCheck (L1): rib.DisableRIBCheckFn - no resolvability checks, no deletion protection
+	NoRefCheck bool `json:"norefcheck,omitempty"`
 }
 
 func setup() {
 	c := ev.C()
-	c.Rule = "histories of ADD/REPLACE/DELETE over ipv4/ipv6/mpls/nhg/nh in 3 network instances with a small colliding key universe (rapid, model-aimed) plus dependency graphs in disturbed arrival orders (held chains, dependencies deleted while waited for, doomed held REPLACEs) plus all histories of length<=3 over a 24-step alphabet, run against rib.RIB (L1), server.Modify/Get over in-process streams (L2) and - one L2 history in four - the same server behind a real grpc.Server over bufconn (L3: real codec, HTTP/2 streams); after every step: relation model, pure fold of acknowledged ops, held-set and counter invariants. Non-trivial = history in which an acknowledged ADD/REPLACE changed an installed key's payload, or an acknowledged DELETE removed an installed key, or a held op was acknowledged later, or a flush left entries in other NIs; distinct by FNV-64 of the canonical case JSON."
+	c.Rule = "histories of ADD/REPLACE/DELETE over ipv4/ipv6/mpls/nhg/nh in 3 network instances with a small colliding key universe (rapid, model-aimed) plus dependency graphs in disturbed arrival orders (held chains, dependencies deleted while waited for, doomed held REPLACEs) plus all histories of length<=3 over a 24-step alphabet, run against rib.RIB (L1; one random history in eight on a RIB built with DisableRIBCheckFn and a model without reference checks), server.Modify/Get over in-process streams (L2) and - one L2 history in four - the same server behind a real grpc.Server over bufconn (L3: real codec, HTTP/2 streams); after every step: relation model, pure fold of acknowledged ops, held-set and counter invariants. Non-trivial = history in which an acknowledged ADD/REPLACE changed an installed key's payload, or an acknowledged DELETE removed an installed key, or a held op was acknowledged later, or a flush left entries in other NIs; distinct by FNV-64 of the canonical case JSON."
 	c.Assumptions = []string{
 		"payload generators only emit schema-valid values (labels 16..1048575, canonical prefixes, non-empty metadata)",
 		"installed state at L1 is read through RIBContents + rib.Concrete*Proto, the converters Get uses",
@@ -42,7 +44,10 @@ func runCase(c Case) *ev.Verdict {
 	case "L2", "L3":
 		return runL2(c)
 	}
-	v, tr := l1.Run(c.H, l1.Opts{P: "C01", Trusted: true, ObserveEvery: c.Every})
+	v, tr := l1.Run(c.H, l1.Opts{P: "C01", Trusted: true, ObserveEvery: c.Every, NoRefCheck: c.NoRefCheck})
+	if c.NoRefCheck {
+		v.Class("reference-checks-disabled")
+	}
 	classify(v, tr)
 	return v
 }
@@ -197,6 +202,7 @@ func TestCampaign(t *testing.T) {
 			} else {
 				c = Case{Level: "L1", H: hgen.DrawHistory(rt, cfg)}
 				c.H, wild = hgen.MaybeRename(rt, c.H, 20)
+				c.NoRefCheck = rapid.IntRange(0, 7).Draw(rt, "norefcheck?") == 0
 			}
 			v := runCase(c)
 			if wild == "bulk" {
